@@ -60,12 +60,15 @@ def _case(draw, tier):
                                                     create[k] + "\n", create[k] + "\t"]))
     # integers may be given as integer-like strings - also "03", " 3 ", "+3" (what int() takes)
     encs = ["int", "int", "str", "str", "str0", "strsp", "strplus"]
+    if draw(st.integers(0, 9)) == 0 and create["store_depth"] != create["store_width"]:
+        # the mismatching values all occur somewhere in the stored configuration: depth and width exchanged
+        reopen = dict(create, store_depth=create["store_width"], store_width=create["store_depth"])
     enc_c = {k: draw(st.sampled_from(encs)) for k in KEYS[:2]}
     enc_r = {k: draw(st.sampled_from(encs)) for k in KEYS[:2]}
     return {"create": create, "reopen": reopen, "enc_c": enc_c, "enc_r": enc_r,
             "keyset": draw(st.sampled_from(["exact"] * 6 + ["missing", "none", "extra"])),
             "keyset_key": draw(st.sampled_from(KEYS)),
-            "path_state": draw(st.sampled_from(["absent", "absent", "empty-dir", "unrelated-file"])),
+            "path_state": draw(st.sampled_from(["absent", "absent", "empty-dir", "unrelated-file", "file-named-like-a-store-dir"])),
             "populated": draw(st.booleans()), "yaml_removed": draw(st.sampled_from([False] * 5 + [True])),
             "bad_int": draw(st.sampled_from([None] * 9 + ["x"])),
             # opened through the class or through HashStoreFactory.get_hashstore (what the client uses)
@@ -207,8 +210,13 @@ def run_case(case, ctx):
         ctx.classify("path-had-a-previous-store")
     if case["path_state"] != "absent":
         os.makedirs(root)
-        if case["path_state"] == "unrelated-file":
+        if case["path_state"] in ("unrelated-file", "file-named-like-a-store-dir"):
             common.write_file(os.path.join(root, "notes.txt"), b"unrelated")
+        if case["path_state"] == "file-named-like-a-store-dir" and (case["create"]["store_algorithm"] not in GOOD_ALGOS or case["bad_int"]):
+            # (only next to a configuration that is refused anyway: what a valid creation does with such a file is unspecified)
+            # regular FILES that happen to be called like the store's directories: not the store's to touch
+            for name in ("metadata", "refs"):
+                common.write_file(os.path.join(root, name), b"a regular file, not a directory")
     src = ctx.scratch("c14src")
     f1 = common.write_file(os.path.join(src, "o1"), b"object one")
     f2 = common.write_file(os.path.join(src, "o2"), b"object two" * 900)
